@@ -5,10 +5,11 @@ CONSTANTS
   MaxBatch = 4
   MaxKills = 3
   MaxCycles = 3
-  DedupModes = {FALSE, TRUE}
+  DedupModes = {"none", "tags", "shrink"}
+  TagUnion = TRUE
   RecoverOnCrash = TRUE
   ListAllEntries = FALSE
   Emit = TRUE
-INVARIANTS TypeOK DeleteSafe EmitInv
+INVARIANTS TypeOK DeleteSafeExceptOpen EmitInv
 
 CHECK_DEADLOCK FALSE
